@@ -434,10 +434,29 @@ def run(ctx):
         "modelled, not verified: sleep-queue enqueue/dequeue as one step each (they run under the queue's spinlock), the run queues "
         "(a pushed thread is simply runnable), context save/restore (C03), sequential consistency of the mutex word"]
     if fails:
-        c, r, msg = fails[0]
+        # prefer a run in which the wake-up was actually lost (DEADLOCK) as the witness; if the failures seen
+        # so far are only order / protocol observations, look for such a run among preemption-heavy reseeds
+        dead = [f for f in fails if "missed signal" in f[2]]
+        searched = 0
+        if not dead:
+            pool = [c for c, _, _ in fails[:10]]
+            for k in range(40):
+                extra = [reseed(ctx, c, k) for c in pool[:5]] + \
+                        [gen_case(ctx.rng, kind="gate", workers=ctx.rng.rng(2, 4), pswitch=85) for _ in range(5)]
+                searched += len(extra)
+                _, f2, _, _ = judge(ctx, extra, exe, drv)
+                dead = [f for f in f2 if "missed signal" in f[2]]
+                if dead:
+                    break
+        cats = {}
+        for _, _, m in fails:
+            k = m.split("(")[0][:60]
+            cats[k] = cats.get(k, 0) + 1
+        c, r, msg = (dead or fails)[0]
         ctx.violation("oracle", msg, {"case": c, "observed": {"verdict": r["verdict"], "model": r["model"], "trace": r["trace_path"]},
                                       "expected": "property C05 (see analyse() in tools/props/c05.py)", "level": "library",
-                                      "failing_runs": len(fails), "others": [m for _, _, m in fails[1:8]]}, found=True)
+                                      "failing_runs": len(fails), "failure_categories": cats, "deadlock_search_runs": searched,
+                                      "others": [m for _, _, m in fails[:8]]}, found=True)
     elif mism or broken or missing:
         # something broke without a failing input so far: search harder for one
         base = [c for c, _, _ in mism[:8]] or cases[:8]
